@@ -1,8 +1,9 @@
 #!/bin/bash
-# Offline setup: pre-builds the harness test binary (warms the Go build cache). No network.
+# Offline setup: pre-builds the harness test binaries (warms the Go build cache). No network.
 set -e
 cd "$(dirname "$0")"
 . ./env.sh
 cd harness
 go test -c -vet=off -tags verif -o /dev/null ./props
+go test -c -vet=off -tags verif -race -o /dev/null ./props || echo "race build unavailable (checks fall back at run time)"
 echo "setup ok: $(go version)"
